@@ -532,6 +532,84 @@ def stress_round(
 # ---------------------------------------------------------------------------
 
 
+def thread_phase(chk: harness.Check, model_paths: List[pathlib.Path], refs: Dict[str, Dict[str, str]]) -> None:
+    """Concurrent runs inside one process (vf/c24_threads.py), judged on their outcomes."""
+    import json
+    import subprocess
+    import sys
+
+    n_jobs = chk.pick(6, 16)
+    n_schedules = chk.pick(40, 250)
+    base = env.new_dir("threads")
+    procs = []
+    for j in range(n_jobs):
+        model = model_paths[j % len(model_paths)]
+        n_threads = 2 if j % 3 else 3
+        cmd = [sys.executable, "-m", "vf.c24_threads", str(model), str(base / f"j{j}"),
+               str(n_schedules), str(chk.seed * 1000 + j), str(n_threads)]
+        procs.append((j, model, n_threads, subprocess.Popen(
+            cmd, stdout=subprocess.PIPE, stderr=subprocess.PIPE, text=True, cwd=str(env.VERIF),
+            env=dict(os.environ, PYTHONPATH=f"{env.REPO}:{env.VERIF}", PYTHONDONTWRITEBYTECODE="1"),
+        )))
+    for j, model, n_threads, proc in procs:
+        try:
+            out, err = proc.communicate(timeout=900)
+        except subprocess.TimeoutExpired:
+            proc.kill()
+            out, err = proc.communicate()
+            chk.count("thread_jobs_timed_out")
+        if proc.returncode not in (0, None, -9):
+            chk.harness_error(f"thread job {j} failed: {err[-600:]}")
+            continue
+        reference = None
+        for line in out.splitlines():
+            try:
+                record = json.loads(line)
+            except ValueError:
+                continue
+            if "reference" in record:
+                reference = record["reference"]
+                if reference.get("error"):
+                    chk.harness_error(f"thread job {j}: uncached reference failed: {reference}")
+                    break
+                continue
+            if reference is None:
+                continue
+            if record.get("watchdog"):
+                chk.count("thread_schedules_inconclusive_watchdog")
+                continue
+            chk.count("thread_schedules_executed")
+            chk.count("thread_runs_completed", len(record["outcomes"]))
+            history = [tuple(h) for h in record["history"]]
+            chk.hist("thread_schedule_switches", str(min(record["switches"], 12)))
+            for _, step, kind in history:
+                chk.hist("thread_steps", f"{step}:{kind}")
+            config = f"threads/{n_threads}-runs/{'warm' if record['warm'] else 'cold'}"
+            chk.case(
+                distinct_key=("threads", model.name, n_threads, record["warm"], tuple(history))
+                if record["switches"] > 0 else None,
+                sample={"phase": "threads", "config": config, "history": record["history"][:40]}
+                if record["schedule"] == 0 and j == 0 else None,
+            )
+            witness = {"phase": "threads", "config": config, "model": model.name,
+                       "history": record["history"], "outcomes": record["outcomes"],
+                       "final": record["final"], "strays": record["strays"],
+                       "replay_command": "python -m vf.c24_threads <model> <dir> <n> <seed> <threads>",
+                       "seed": chk.seed * 1000 + j, "schedule": record["schedule"]}
+            for outcome in record["outcomes"] + [dict(record["final"], thread="later-run")]:
+                if outcome is None:
+                    chk.violation("threads/run-did-not-return", witness)
+                    continue
+                who = "later-run" if outcome.get("thread") == "later-run" else "concurrent-run"
+                if outcome.get("error"):
+                    chk.violation(f"threads/exception-escapes/{who}/{outcome['error']}", witness)
+                elif outcome.get("result_sha") != reference.get("result_sha"):
+                    chk.violation(f"threads/result-differs-from-uncached/{who}", witness)
+                else:
+                    chk.count("thread_results_equal_to_uncached")
+    shutil.rmtree(base, ignore_errors=True)
+
+
 def replay(chk: harness.Check) -> int:
     """Re-execute the histories of a replay file: same workers, same decisions."""
     import json
@@ -753,6 +831,10 @@ def main(argv) -> int:
                      stress_targets)
 
 
+    # (d) runs as threads of one process (they share the process id and every piece of
+    # module state): seeded schedules over the same file-system steps
+    thread_phase(chk, model_paths, refs)
+
     for agg in explorations.values():
         agg["complete"] = agg["shards"] == agg["shards_complete"]
     chk.extra["explorations"] = explorations
@@ -786,6 +868,7 @@ def main(argv) -> int:
     chk.require_min("loads_checked", chk.pick(60, 2000))
     chk.require_min("workers_completed", chk.pick(150, 6000))
     chk.require_min("stress_processes", 8)
+    chk.require_min("thread_schedules_executed", chk.pick(100, 1500))
     chk.assume(
         "a crash is os._exit of the whole process (buffers are lost, nothing is rolled "
         "back); power loss / fsync durability and non-POSIX rename semantics are outside"
